@@ -342,7 +342,7 @@ func Discharge(pre *Pre, fgs []*FuncGen, filter func(*Obligation) bool, timeoutM
 	for _, jb := range jobs {
 		for _, o := range jb.obls {
 			byFg[o] = jb.fg
-			if results[o].Status != "proved" || confirm {
+			if results[o].Status != "proved" || confirm || o.Kind == "cover" {
 				rest = append(rest, o)
 			}
 		}
@@ -423,6 +423,20 @@ func raceSolvers(script string, o *Obligation, timeoutMs int, first *Result, con
 		}(s)
 	}
 	best := &Result{O: o, Status: "unknown", Solver: "portfolio"}
+	if o.Kind == "cover" {
+		// vacuity guard: every solver is asked; a refutation by any of them is a failure
+		best.Status = "proved"
+		for range solvers {
+			r := <-ch
+			if r.ans == "unsat" {
+				return &Result{O: o, Status: "failed", Solver: r.s.Name, Seconds: r.sec, Output: "the assumptions at function entry are contradictory (" + r.s.Name + " answered unsat)"}
+			}
+			if r.sec > best.Seconds {
+				best.Seconds = r.sec
+			}
+		}
+		return best
+	}
 	proved := 0
 	var provers []string
 	for range solvers {
